@@ -19,10 +19,10 @@ Theorem run_refines fuel declared halt (p : prog) :
   so = ss /\ oo = os /\ L = [].
 Proof.
   intros Hwf. unfold run_o, run_s.
-  pose proof (control_flow_refines state val expr eval truthy tick recatch fuel (SBlock p)
+  pose proof (control_flow_refines state val expr eval truthy tick recatch val_seq fuel (SBlock p)
                 (init_state declared halt) Hwf) as H.
-  destruct (exec_o eval truthy tick recatch fuel (init_state declared halt) [] (SBlock p)) as [[so L] ro].
-  destruct (exec_s eval truthy tick recatch fuel (init_state declared halt) [] (SBlock p)) as [ss rs].
+  destruct (exec_o eval truthy tick recatch val_seq fuel (init_state declared halt) [] (SBlock p)) as [[so L] ro].
+  destruct (exec_s eval truthy tick recatch val_seq fuel (init_state declared halt) [] (SBlock p)) as [ss rs].
   destruct H as (H1 & H2 & H3). repeat split; try assumption. apply outcome_rel. exact H2.
 Qed.
 
